@@ -175,13 +175,13 @@ pub fn random_cfg(rng: &mut Sm, i: usize) -> AgentCfg {
     let top_hi = (PMAX - 1) / ticks[asset];
     // ... and a few start at tick 0 (price 0 is a multiple of every tick size)
     let lo = if rng.chance(0.04) { 0 } else { rng.range(1, 2000) as u32 };
-    let sigma = *rng.pick(&[0.1, 1.0, 1.0, 10.0, 10.0]);
+    let sigma = *rng.pick(&[0.1, 1.0, 1.0, 10.0, 10.0, 0.0]);
     AgentCfg {
         kind,
         market,
         asset,
         ticks,
-        n_agents: rng.range(1, 40) as u16,
+        n_agents: if rng.chance(0.03) { rng.range(65, 300) as u16 } else { rng.range(1, 40) as u16 },
         id_start: rng.below(1000) as u32,
         tick_range: if top_ticks { (top_hi - rng.range(2, 60) as u32, top_hi) } else { (lo, lo + rng.range(1, 60) as u32) },
         vol_range: {
@@ -193,9 +193,9 @@ pub fn random_cfg(rng: &mut Sm, i: usize) -> AgentCfg {
         p_market: prob(rng),
         p_cancel: prob(rng),
         trade_vol: rng.range(1, 200) as u32,
-        mu: *rng.pick(&[0.0, 1.0, 3.0]),
+        mu: *rng.pick(&[0.0, 1.0, 3.0, -1.0]),
         sigma,
-        decay: *rng.pick(&[0.1, 0.5, 1.0]),
+        decay: *rng.pick(&[0.1, 0.5, 1.0, 0.0]),
         demand: *rng.pick(&[0.5, 5.0, 50.0]),
         scale: *rng.pick(&[0.1, 0.5, 2.0]),
         order_ratio: *rng.pick(&[0.0, 0.5, 1.0, 2.0]),
